@@ -16,6 +16,7 @@ def lean_stage(ctx, prop_mod, extra_targets=()):
     ok, log = leanb.lake_build([prop_mod, "psymodel"] + list(extra_targets))
     ctx.cov["trusted_base"] = list(TRUSTED)
     if not ok:
+        leanb.lake_build(["psymodel"] + list(extra_targets))      # the driver must still reflect the current generated data
         ctx.notes["lake_build_log_tail"] = log[-3000:]
         ctx.log("lake build FAILED")
         ctx.lean_failure = "lake build of %s failed: %s" % (prop_mod, _first_error(log))
